@@ -22,6 +22,7 @@ EXTENDS Integers, Sequences, FiniteSets, TLC
 
 Max(a, b) == IF a > b THEN a ELSE b
 Min(a, b) == IF a < b THEN a ELSE b
+Abs(x) == IF x < 0 THEN -x ELSE x
 FloorDiv(a, b) == a \div b                      \* b > 0; TLC's \div rounds towards minus infinity
 CeilDiv(a, b) == -((-a) \div b)
 
